@@ -40,6 +40,7 @@ pub struct Cfg {
     pub healthcheck_delay: u64,
     pub ban_time: i64,
     pub idle_in_txn_timeout: u64,
+    pub shutdown_timeout: u64,
     pub pools: Vec<PoolCfg>,
 }
 
@@ -52,6 +53,7 @@ impl Default for Cfg {
             healthcheck_delay: 30000,
             ban_time: 60,
             idle_in_txn_timeout: 0,
+            shutdown_timeout: 60000,
             pools: vec![],
         }
     }
@@ -102,7 +104,8 @@ impl Cfg {
             "connect_timeout = {}\nhealthcheck_timeout = {}\nhealthcheck_delay = {}\nban_time = {}\nidle_client_in_transaction_timeout = {}\n",
             self.connect_timeout, self.healthcheck_timeout, self.healthcheck_delay, self.ban_time, self.idle_in_txn_timeout
         ));
-        s.push_str("shutdown_timeout = 60000\nidle_timeout = 3000000\nserver_lifetime = 86400000\nworker_threads = 1\n");
+        s.push_str(&format!("shutdown_timeout = {}\n", self.shutdown_timeout));
+        s.push_str("idle_timeout = 3000000\nserver_lifetime = 86400000\nworker_threads = 1\n");
         s.push_str(&self.general_extra);
         s.push('\n');
         for p in &self.pools {
